@@ -28,7 +28,7 @@ SRC = os.environ.get("VERIF_SRC", "/repo")
 NWORKERS = int(os.environ.get("VERIF_WORKERS", "16"))
 
 
-FROZEN_KEYS = {"tok", "unit", "pre", "post", "clone", "dmp", "at", "j", "run", "kind", "tokenizer", "op", "steps", "mode", "regex", "full", "engine", "w", "t"}
+FROZEN_KEYS = {"bal", "line", "sep", "tok", "unit", "pre", "post", "clone", "dmp", "at", "j", "run", "kind", "tokenizer", "op", "steps", "mode", "regex", "full", "engine", "w", "t"}
 
 
 class HarnessError(Exception):
